@@ -16,7 +16,14 @@ for fn in sorted(glob.glob(os.path.join(V, "pending", "*.findings.json"))):
             seen[k] = len(kf); kf.append(e)
     os.remove(fn)
 kf.sort(key=lambda e: (e.get("property", ""), e.get("status", ""), e.get("slug", "")))
-json.dump({"findings": kf}, open(kp, "w"), indent=1)
+for e in kf:
+    if e.get("status") == "fixed":
+        e["line"] = "fixed: property=%s %s %s" % (e["property"], e.get("commit", ""), e.get("what", ""))
+    else:
+        e["line"] = "KNOWN-FINDING: property=%s %s" % (e["property"], e.get("what", ""))
+old = json.load(open(kp))
+old["findings"] = kf
+json.dump(old, open(kp, "w"), indent=1)
 print(len(kf), "findings;", sum(1 for e in kf if e.get("status") == "open"), "open")
 for e in kf:
     if e.get("status") == "open": print("  OPEN", e["property"], e["slug"])
